@@ -268,6 +268,12 @@ def analyse(task):
                 fs = pc + wf + [lp.P(last, last.point), z3.Not(prop_f)]
                 res['obligations'] += 1
                 r, m = ask(fs, name)
+                if task.get('cvc5') and r in ('sat', 'unsat'):
+                    r5 = lp.decide_cvc5(fs)
+                    if r5 in ('sat', 'unsat') and r5 != r:
+                        raise RuntimeError('solver disagreement on a QF obligation: z3 %s, cvc5 %s' % (r, r5))
+                    res['controls']['cvc5_agree'] = res['controls'].get('cvc5_agree', 0) + (1 if r5 == r else 0)
+                    res['controls']['cvc5_unknown'] = res['controls'].get('cvc5_unknown', 0) + (1 if r5 == 'unknown' else 0)
                 if r == 'unsat':
                     res['discharged'] += 1
                 elif r == 'unknown':
